@@ -198,8 +198,8 @@ def guarded_parse(src, names=None):
         out, n, dt = _guarded_parse_once(src, names)
         if out[0] != "alarm":
             break  # only a repeatable time-out counts (the deterministic budgets are the primary criterion)
-    if out[0] in ("budget", "alarm", "work"):
-        _TERM_ABORTS[0] += 1
+    if out[0] in ("budget", "alarm"):
+        _TERM_ABORTS[0] += 1  # expensive aborts; a "work" abort is cheap and does not count towards the cap
     return out, n, dt
 
 
@@ -368,7 +368,7 @@ def compare_runs(chain, bare, expl, full):
         # threaded pipelines of the implementation are not perfectly repeatable (a closed-handle race in
         # ProcProxyThread.wait shows up about once in 100 runs; another property's business): a difference counts
         # only if it shows in three consecutive attempts (chains without threaded commands are run once)
-        for attempt in range(3 if threaded else 1):
+        for attempt in range(3 if (threaded or not full) else 1):
             tb_ = execute(bare, rcs, fl)
             te_ = execute(expl, rcs, fl)
             n += 2
@@ -445,15 +445,11 @@ def confirm_boolop_mark(chain, pos):
     """A pair whose trees differ only in the chain-operand marking: run it (all return codes x both flag settings)."""
     k = common.jdump([chain, pos])
     if k not in _CONFIRM:
-        if has_bg_or_unrunnable(chain):
-            _CONFIRM[k] = None
+        if gen.has_bg(chain):
+            _CONFIRM[k] = "unrunnable"  # `&` is essential to the difference: cannot be decided here (counted as undecided)
         else:
             _CONFIRM[k] = compare_runs(chain, gen.render(chain, pos, False), gen.render(chain, pos, True), full=True)[1]
     return _CONFIRM[k]
-
-
-def has_bg_or_unrunnable(chain):
-    return gen.has_bg(chain)
 
 
 def _subseq(a, b):
@@ -585,7 +581,7 @@ def _violation_for(chain, pos, res):
         r2 = check_pair(c2, pos)
         if r2["status"] in FAIL:
             v = _violation_for(c2, pos, r2)
-            if v is not None:
+            if isinstance(v, dict):
                 v["case"].update(chain=chain, pos=pos, bare=res["bare"], explicit=res["explicit"])
                 v["note"] = "trees differ for the pair with `&` (not executed); attributed to the same pair without `&`, which fails: " + repr(r2["bare"])
                 return v
@@ -594,8 +590,8 @@ def _violation_for(chain, pos, res):
     key = a_key(sig, mchain, mpos)
     if s == "boolop-mark":
         d = confirm_boolop_mark(mchain, mpos)
-        if d is None:
-            return None  # same runs under every return-code assignment and flag setting: allowed
+        if d is None or d == "unrunnable":
+            return d  # None: same runs under every return-code assignment and flag setting - allowed
         obs = {"trees": res["detail"], "minimal_form_run": {"rcs": d[0], "RAISE_ERROR,CMD_RAISE_ERROR": d[1], "bare": d[2]}}
         exp = {"minimal_form_run": {"explicit": d[3]}}
     elif s == "trace-diff":
@@ -650,6 +646,8 @@ def _do_chain(item):
             v = _violation_for(chain, pos, res)
             if v is None:
                 out["st"]["boolop-mark-benign"] = out["st"].get("boolop-mark-benign", 0) + 1
+            elif v == "unrunnable":
+                out["st"]["undecided"] = out["st"].get("undecided", 0) + 1
             else:
                 out["viols"].append(v)
         elif res["executed"] and len(out["samples"]) < 1 and "trace0" in res:
@@ -712,43 +710,48 @@ def b_outcome(s):
     return "nonterm", r[0], n, dt
 
 
-def b_minimise(s, kind, sig):
-    """Canonical small witness of the same failure: the shortest subsequence of the input (ties: alphabet order) that
-    fails with the same signature, then a bracketed group / longer piece replaced by the plain word `a`, then every
-    symbol replaced by the earliest alphabet symbol that keeps the failure.  Inputs are <= 6 symbols: <= 64 subsequences."""
+def _shortest_failing_subsequence(s, kind, sig):
     subs = set()
-    for r in range(len(s) + 1):
+    for r in range(len(s)):
         for idx in itertools.combinations(range(len(s)), r):
             subs.add("".join(s[i] for i in idx))
-    cur = s
     for c in sorted(subs, key=lambda t: (len(t), [_ORDER.get(ch, 99) for ch in t])):
-        if len(c) >= len(s):
-            break
         if b_outcome_memo(c) == (kind, sig):
+            return c
+    return None
+
+
+def b_minimise(s, kind, sig):
+    """Canonical small witness of the same failure, to a fixpoint of: the shortest proper subsequence (ties: alphabet
+    order) that fails with the same signature; a bracketed group / longer piece replaced by the plain word `a`; a
+    symbol replaced by the earliest alphabet symbol that keeps the failure.  Inputs are <= 6 symbols (<= 64 subsequences)."""
+    cur = s
+    while True:
+        c = _shortest_failing_subsequence(cur, kind, sig)
+        if c is not None:
             cur = c
-            break
-    changed = True
-    while changed:
-        changed = False
+            continue
+        nxt = None
         for ln in (2, 3, 4):
             for i in range(len(cur) - ln + 1):
                 c = cur[:i] + "a" + cur[i + ln :]
                 if b_outcome_memo(c) == (kind, sig):
-                    cur, changed = c, True
+                    nxt = c
                     break
-            if changed:
+            if nxt:
                 break
-        if changed:
-            continue
-        for i in range(len(cur)):
-            for sym in FULL[: _ORDER.get(cur[i], 0)]:
-                c = cur[:i] + sym + cur[i + 1 :]
-                if b_outcome_memo(c) == (kind, sig):
-                    cur, changed = c, True
+        if nxt is None:
+            for i in range(len(cur)):
+                for sym in FULL[: _ORDER.get(cur[i], 0)]:
+                    c = cur[:i] + sym + cur[i + 1 :]
+                    if b_outcome_memo(c) == (kind, sig):
+                        nxt = c
+                        break
+                if nxt:
                     break
-            if changed:
-                break
-    return cur
+        if nxt is None:
+            return cur
+        cur = nxt
 
 
 _BMIN = {}
@@ -924,8 +927,8 @@ def replay(rec):
         print("minimal  :", repr(m["bare"]), "vs", repr(m["explicit"]), "->", r2["status"], r2.get("detail", ""))
         if res["status"] == "boolop-mark":
             d = confirm_boolop_mark(m["chain"], m["pos"])
-            bad = d is not None
-            if d:
+            bad = d is not None and d != "unrunnable"
+            if bad:
                 print("settings : return codes", d[0], " flags", d[1])
                 print("observed (bare run of the minimal form)     :", d[2])
                 print("expected (explicit run of the minimal form) :", d[3])
